@@ -47,3 +47,12 @@ Example C04_example :
   retry_run 2 (map events [([VInt 1], Fails 5); ([VInt 2], Fails 6); ([VInt 3], Completes)]) = ([Nx (VInt 1); Nx (VInt 2); Er 6], 2) /\
   retry_run 1 (map events [([VInt 1], Fails 5); ([VInt 2], Completes)]) = ([Nx (VInt 1); Er 5], 1).
 Proof. vm_compute. repeat split. Qed.
+
+(* on_error_resume_next resubscribes exactly once, to the observable chosen for the error, and an error of that one is final
+   (the same statement as C03_on_error_resume_next, over every sequential interleaving of the two sources) *)
+From RX Require Import MLoc.
+From RXP Require Import MLocDyn.
+Theorem C04_on_error_resume_next : forall k l, mrun_first OResume k l = spec_resume 0 l.
+Proof. exact resume_correct. Qed.
+Check C04_on_error_resume_next : forall k l, mrun_first OResume k l = spec_resume 0 l.
+Print Assumptions C04_on_error_resume_next.
